@@ -495,6 +495,13 @@ def run(ctx):
     if m.cat_mismatch:
         n_corr += 1
     ctx.cov["streams_compared"] = len(texts)
+    wit = [t for t, o in zip(texts, origin) if o == "corpus" and len(t) < 200]
+    if wit:
+        old = m.run_model(wit, fx=(0, 0))
+        oldv = m.judge(wit, [x if isinstance(x, list) else "PANIC" for x in old])
+        ctx.cov["refuted_witnesses_on_nofix_model"] = {
+            "witnesses": len(wit), "panic": sum(1 for x in old if x == "PANIC"),
+            "judge_fails": sum(1 for v in oldv if v[0] != 0)}
     report_failing(ctx, m, failing)
     if failing:
         return
@@ -530,36 +537,29 @@ def run(ctx):
 
 
 def report_failing(ctx, m, failing):
-    seen = set()
-    for t, o, im, mo, v in failing:
-        key = (v[0],)
-        if key in seen and len(seen) >= 1 and len([1 for k in seen if k[0] == v[0]]) >= 2:
+    """shrink and report at most two failing inputs per verdict code"""
+    per_code = {}
+    for t, o, im, mo, v in sorted(failing, key=lambda f: len(f[0])):
+        if per_code.get(v[0], 0) >= 2:
             continue
+        per_code[v[0]] = per_code.get(v[0], 0) + 1
 
         def fails(sub, code=v[0]):
-            r, _ = m.judge_one("".join(sub))
-            return r[0] == code
+            return m.judge_one("".join(sub))[0][0] == code
         small = "".join(shrink_list(list(t), fails, budget=250)) if len(t) < 6000 else t
         r, im2 = m.judge_one(small)
         if r[0] == 0:
             small, r, im2 = t, v, im
-        sig = (r[0], small)
-        if sig in seen:
-            continue
-        seen.add(sig)
-        seen.add(key + (len(seen),))
         what = VERDICT[r[0]] % r[1] if "%d" in VERDICT[r[0]] else VERDICT[r[0]]
         tok = None
         if r[0] in (3, 4) and isinstance(im2, list):
             ts = [i for i in im2 if i[0] == "T"]
             if r[1] < len(ts):
                 tok = show_items([ts[r[1]]])[0]
-        mo2 = m.run_model([small])[0]
+        mo2 = m.run_model([small])[0] if len(small) < 20000 else "(not run)"
         ctx.violation("failing-input", "lexer input violating C08: %s%s" % (what, " (%s)" % tok if tok else ""),
                       case={"text": small, "origin": o}, impl=show_items(im2), model=show_items(mo2),
                       judge={"code": r[0], "token": r[1], "meaning": what})
-        if len([1 for s in seen if isinstance(s[1], str)]) >= 4:
-            break
 
 
 def replay(ctx, path):
